@@ -145,6 +145,7 @@ def step (s : State) (toks : List String) : State × List String :=
     match parseKV "job" job >>= parseOptNat, parseKV "mf" mf >>= parseOptNat, parseGraph g with
     | some job, some mf, some g => doSubmit s job mf (.graph g)
     | _, _, _ => bad
+  | ["prune"] => (s, snapshot s true)   -- `hq journal prune`: no effect on the job layer
   | ["close", ids] =>
     match parseNatList ids with
     | none => bad
